@@ -181,7 +181,14 @@ fn deliver(e: &mut Emu, mm: &mut MemModel, c: &Case, bytes: &[u8]) -> Result<u8,
                 mm.latch = latch_shadow;
             }
             idle(e, mm);
-            let actions: Vec<PokeAction> = bytes.iter().enumerate().map(|(i, b)| PokeAction::mem(0x4000 + i as u16, *b)).collect();
+            let mut actions: Vec<PokeAction> = bytes.iter().enumerate().map(|(i, b)| PokeAction::mem(0x4000 + i as u16, *b)).collect();
+            // one poke list may span several 16 KiB windows: an action outside the screen comes
+            // first (or in the middle) — each action lands in the bank its own address maps to
+            match c.seed % 3 {
+                0 => actions.insert(0, PokeAction::mem(0x9000, 0x5A)),
+                1 => actions.insert(3000, PokeAction::mem(0xC123, 0xA5)),
+                _ => {}
+            }
             e.execute_poke(OnePoke(actions));
             Ok(visible_bank(machine, false))
         }
@@ -324,6 +331,14 @@ pub fn check(c: &Case, rec: &mut Rec) -> Result<(), String> {
         if c.path == Path::Scr && c.frames >= 34 && k == 5 + (c.seed % 23) as u8 && vb != 7 {
             e.load_screen(Screen::Scr(MemAsset::new(bytes.to_vec()))).map_err(|x| format!("load_screen failed: {:?}", x))?;
             rec.class("same-screen-file-loaded-again-mid-run");
+        }
+        // 128K long runs: the screen-select bit is flipped and flipped back between two frames (the
+        // displayed bank is what it was): FLASH keeps its rhythm
+        if machine == Machine::K128 && c.frames >= 34 && k == 7 + (c.seed % 19) as u8 {
+            let (latch, _, _) = e.verif_paging();
+            e.verif_set_paging((latch ^ 0x08) & !0x20);
+            e.verif_set_paging(latch & !0x20);
+            rec.class("screen-select-flipped-and-back-between-frames");
         }
         mach::run_frames(&mut e, 1)?;
         rec.eval();
